@@ -581,6 +581,46 @@ pub fn call_genu64<O: Gen<u64> + ?Sized>(rv: &mut Recv<O>, mi: usize, a: &mut A)
     }
 }
 
+pub const FMTDEBUG: [Meth; 1] = [Meth { name: "Debug::fmt", logged_as: "fmt_debug" }];
+pub fn call_debug<O: core::fmt::Debug + ?Sized>(rv: &mut Recv<O>, mi: usize, _a: &mut A) -> Ret {
+    use std::fmt::Write;
+    match mi {
+        0 => {
+            let mut out = String::new();
+            match write!(&mut out, "{:?}", rv.r()) {
+                Ok(()) => Ret::Ok_(Box::new(Ret::Str(out))),
+                Err(_) => Ret::Err_(Box::new(Ret::Str(out))),
+            }
+        }
+        _ => Ret::NoSuchMethod,
+    }
+}
+pub const FMTDISPLAY: [Meth; 1] = [Meth { name: "Display::fmt", logged_as: "fmt_display" }];
+pub fn call_display<O: core::fmt::Display + ?Sized>(rv: &mut Recv<O>, mi: usize, _a: &mut A) -> Ret {
+    use std::fmt::Write;
+    match mi {
+        0 => {
+            let mut out = String::new();
+            match write!(&mut out, "{}", rv.r()) {
+                Ok(()) => Ret::Ok_(Box::new(Ret::Str(out))),
+                Err(_) => Ret::Err_(Box::new(Ret::Str(out))),
+            }
+        }
+        _ => Ret::NoSuchMethod,
+    }
+}
+pub const ASREF: [Meth; 1] = [Meth { name: "AsRef::as_ref", logged_as: "as_ref" }];
+pub fn call_asref<O: AsRef<u64> + ?Sized>(rv: &mut Recv<O>, mi: usize, a: &mut A) -> Ret {
+    match mi {
+        0 => {
+            let r: &u64 = rv.r().as_ref();
+            a.sent.push((r as *const u64 as usize, 1));
+            Ret::U(*r)
+        }
+        _ => Ret::NoSuchMethod,
+    }
+}
+
 pub const IOPORT: [Meth; 1] = [m("io_read")];
 pub fn call_ioport<O: IOPort + ?Sized>(rv: &mut Recv<O>, mi: usize, a: &mut A) -> Ret {
     match mi {
